@@ -51,6 +51,17 @@ class StepCap(Exception):
     pass
 
 
+class _Touched(dict):
+    """path -> st_mtime_ns observed just before the operation (None if the path did not exist)."""
+
+    def add(self, path):
+        if path not in self:
+            try:
+                self[path] = REAL["stat"](path).st_mtime_ns
+            except OSError:
+                self[path] = None
+
+
 class Actor:
     def __init__(self, sim, aid, role, fn):
         self.sim = sim
@@ -71,7 +82,11 @@ class Actor:
         self.start_after = 0
         self.t_start = None
         self.t_end = None
-        self.vclock = 0.0
+        self.ready_at = 0.0          # global simulated time at which the pending operation completes
+        self.pending_cost = 0.0
+        self.resumed_at = 0.0
+        self.touch = _Touched()      # paths whose mtime must be stamped with simulated time (if the step changed them)
+        self.next_cost = None
         self.speed = 1.0
         self.priority = 0
         self.crash_at = None         # crash when parked at yield number k (1-based)
@@ -92,6 +107,7 @@ class Actor:
             self.exc = e
         finally:
             if not self.dead:
+                sim.stamp(self)
                 self.state = DONE
                 self.t_end = sim.step
             sim.by_ident.pop(_thread.get_ident(), None)
@@ -107,6 +123,7 @@ class Actor:
         return False
 
 
+CLOCK_BASE = 1.7e9
 COST = {"net": 0.0, "sleep": 0.0, "stat": 2e-5, "open": 5e-5, "write": 1e-4, "close": 5e-5, "rename": 5e-5}
 
 
@@ -120,7 +137,7 @@ class Sim:
         self.sched_lock = _thread.allocate_lock()
         self.sched_lock.acquire()
         self.step = 0
-        self.vtime = 0.0
+        self.vtime = 0.0             # == now: one global simulated clock (all actors are processes on one host)
         self.keep_log = keep_log
         self.log = [] if keep_log else None
         self.hasher = hashlib.sha256()
@@ -128,6 +145,8 @@ class Sim:
         self.last = None
         self.discipline = "uniform"
         self.pct_points = ()
+        self.script = []
+        self.script_actors = []
         self.outside_writes = []
         self.crash_prefixes = ()
         self.world = None
@@ -146,12 +165,26 @@ class Sim:
     def spawn(self, role, fn, start_after=0):
         a = Actor(self, len(self.actors), role, fn)
         a.start_after = start_after
-        a.vclock = self.vtime
+        a.ready_at = self.vtime
         self.actors.append(a)
         return a
 
-    def yield_point(self, a, label, detail=""):
-        """Called in actor thread `a`: park in front of operation `label`."""
+    def stamp(self, a):
+        """Give every path the actor touched in its last step a modification time in simulated time, so that
+        code comparing time.time() with st_mtime sees one consistent clock."""
+        if a.touch:
+            t = CLOCK_BASE + a.resumed_at
+            for pth, before in a.touch.items():
+                try:
+                    if before is None or REAL["stat"](pth).st_mtime_ns != before:     # the kernel saw a change
+                        REAL["utime"](pth, (t, t))
+                except OSError:
+                    pass
+            a.touch.clear()
+
+    def yield_point(self, a, label, detail="", cost=None):
+        """Called in actor thread `a`: park in front of operation `label` (which will take `cost` simulated seconds)."""
+        self.stamp(a)
         a.yields += 1
         a.pending = label
         a.pending_detail = detail
@@ -159,7 +192,10 @@ class Sim:
             if label.startswith(p):
                 a.site_counts[p] += 1
         kind = label.split(".", 1)[0].split(":", 1)[0].split("-", 1)[0]
-        a.vclock += COST.get(kind, 5e-5) * a.speed
+        if cost is None and a.next_cost is not None and label.startswith("write"):
+            cost, a.next_cost = a.next_cost, None
+        a.pending_cost = (COST.get(kind, 5e-5) if cost is None else cost) * a.speed
+        a.ready_at = self.vtime + a.pending_cost
         self.note(a.id, label, detail)
         self.stats["site:" + label] += 1
         a.state = PARKED
@@ -172,6 +208,12 @@ class Sim:
     def _resume(self, a):
         performed = a.pending
         a.pending = None
+        if self.discipline == "vtime":
+            self.vtime = max(self.vtime, a.ready_at)       # discrete-event order: jump to the event's time
+        else:
+            self.vtime += a.pending_cost                   # sequentialised: every step takes its duration
+        a.pending_cost = 0.0
+        a.resumed_at = self.vtime
         if a.state == NEW:
             a.t_start = self.step
             a.state = RUNNING
@@ -182,8 +224,6 @@ class Sim:
             a.lock.release()
         if not self.sched_lock.acquire(timeout=HANDOFF_TIMEOUT):
             raise HarnessTimeout(f"actor {a.id} ({a.role}) did not yield within {HANDOFF_TIMEOUT}s after {performed}")
-        if a.vclock > self.vtime:
-            self.vtime = a.vclock
         return performed
 
     def _pick(self, runnable):
@@ -192,8 +232,19 @@ class Sim:
             return runnable[0]
         if d == "serial":
             return runnable[0]
+        if d == "script":
+            # explicit schedule: segments [actor index, number of steps]; afterwards serial order
+            while self.script:
+                idx, left = self.script[0]
+                a = self.script_actors[idx] if idx < len(self.script_actors) else None
+                if left <= 0 or a is None or a not in runnable:
+                    self.script.pop(0)
+                    continue
+                self.script[0][1] = left - 1
+                return a
+            return runnable[0]
         if d == "vtime":
-            return min(runnable, key=lambda a: (a.vclock, a.id))
+            return min(runnable, key=lambda a: (a.ready_at, a.id))
         if d == "pct":
             if self.step in self.pct_points and self.last in runnable:
                 self.last.priority = min(x.priority for x in self.actors) - 1
@@ -313,12 +364,15 @@ def _audit(event, args):
             return
         klass, rel = sim.classify(full)
         sim.yield_point(a, ("open-w:" if writing else "open-r:") + klass, rel)
+        if writing:
+            a.touch.add(full)
+            a.touch.add(os.path.dirname(full))
         return
     if event in _MUTATING:
         op = _MUTATING[event]
         paths = [x for x in args[:2] if isinstance(x, (str, bytes, os.PathLike))] if op in (
             "rename", "link", "symlink", "copyfile", "move", "copytree") else [args[0]]
-        labels, rels, outside = [], [], False
+        labels, rels, outside, fulls = [], [], False, []
         for p in paths:
             ps = os.fsdecode(os.fspath(p)) if not isinstance(p, int) else str(p)
             if not os.path.isabs(ps) and op in ("remove", "rmdir") and len(args) > 1 and args[-1] not in (None, -1):
@@ -334,12 +388,17 @@ def _audit(event, args):
                 k, r = sim.classify(full)
                 labels.append(k)
                 rels.append(r)
+                fulls.append(full)
         if outside:
             sim.outside_writes.append((a.id, op, ">".join(rels)))
             sim.note(a.id, "OUTSIDE " + op, ">".join(rels))
             if all(x == "OUTSIDE" for x in labels):
                 return
         sim.yield_point(a, op + ":" + ">".join(labels), ">".join(rels))
+        for full in fulls:
+            a.touch.add(os.path.dirname(full))
+            if op in ("mkdir", "rename", "copyfile", "move", "link", "symlink", "truncate"):
+                a.touch.add(full)
         return
     # read-only directory operations
     p = args[0] if args else None
@@ -358,7 +417,8 @@ class WriteProxy:
     flush and close is a yield (and crash) point; data reaches the OS exactly when the real
     buffered file puts it there, plus optional mid-write flushes chosen per actor."""
 
-    def __init__(self, f, sim, actor, klass, rel):
+    def __init__(self, f, sim, actor, klass, rel, full=""):
+        object.__setattr__(self, "_full", full)
         object.__setattr__(self, "_f", f)
         object.__setattr__(self, "_sim", sim)
         object.__setattr__(self, "_a", actor)
@@ -374,6 +434,7 @@ class WriteProxy:
             return self._f.write(data)
         n = len(data)
         self._sim.yield_point(self._a, "write:" + self._klass, n)
+        self._a.touch.add(self._full)
         split = self._a.attrs.get("split_write", 0)
         if split and n > 1:
             k = max(1, min(n - 1, n * split // 8))
@@ -394,6 +455,7 @@ class WriteProxy:
             return
         if self._live():
             self._sim.yield_point(self._a, "close:" + self._klass, "")
+            self._a.touch.add(self._full)
         return self._f.close()
 
     def __enter__(self):
@@ -434,7 +496,7 @@ def _sim_open(file, mode="r", *args, **kwargs):
         return real(file, mode, *args, **kwargs)
     f = real(file, mode, *args, **kwargs)       # the audit hook has already yielded in front of this
     klass, rel = sim.classify(full)
-    return WriteProxy(f, sim, a, klass, rel)
+    return WriteProxy(f, sim, a, klass, rel, full)
 
 
 def _mk_stat(name):
@@ -467,17 +529,18 @@ def _sim_sleep(seconds):
         return REAL["sleep"](seconds)
     if a.dead:
         raise Killed()
-    a.vclock += float(seconds)
     sim.stats["sleeps"] += 1
     a.attrs["slept"] = a.attrs.get("slept", 0.0) + float(seconds)
-    sim.yield_point(a, "sleep", round(float(seconds), 6))
+    sim.yield_point(a, "sleep", round(float(seconds), 6), cost=max(0.0, float(seconds)))
 
 
 def _sim_getpid():
     sim, a = _actor()
     if a is None:
         return REAL["getpid"]()
-    return 40000 + a.id          # every simulated process has its own pid
+    # every simulated process has its own pid, unless the scenario puts the loaders into separate pid
+    # namespaces sharing one volume (containers), where all of them may be pid 1
+    return a.attrs.get("pid", 40000 + a.id)
 
 
 def _mk_clock(name, base):
@@ -485,7 +548,7 @@ def _mk_clock(name, base):
         sim, a = _actor()
         if a is None:
             return REAL[name]()
-        return base + a.vclock     # the only clock a simulated process can read
+        return base + sim.vtime    # the only clock a simulated process can read
     clock.__name__ = name
     return clock
 
@@ -598,7 +661,8 @@ def install():
     REAL.update(getpid=os.getpid, time=time.time, monotonic=time.monotonic, perf_counter=time.perf_counter,
                 urandom=os.urandom)
     os.getpid = _sim_getpid
-    time.time = _mk_clock("time", 1.7e9)
+    REAL["utime"] = os.utime
+    time.time = _mk_clock("time", CLOCK_BASE)
     time.monotonic = _mk_clock("monotonic", 1000.0)
     time.perf_counter = _mk_clock("perf_counter", 1000.0)
     os.urandom = _sim_urandom
